@@ -685,6 +685,10 @@ def explore(ctx):
     finally:
         gc.unfreeze()
     cov["distinct_nontrivial"] = len(distinct)
+    if not viol:
+        v2, n2 = after_run_cases()
+        viol += v2
+        cov["after_run_cases"] = n2
     if not viol and not dis:
         floor = 100 if ctx.tier == "quick" else 2000
         if (cov["released_before_end_observations"] < floor or cov["distinct_nontrivial"] < floor // 2
@@ -695,6 +699,61 @@ def explore(ctx):
                          f"{cov['results_released_by_a_failing_last_consumer']} releases by a failing last consumer, "
                          f"{cov['distinct_nontrivial']} distinct logs")
     return {"violations": viol[:3], "disagreements": dis[:3], "coverage": cov}
+
+
+def after_run_cases(only=None):
+    """After `run` has returned or raised - and the caller has dropped the exception - uberjob and its BUNDLED progress displays
+    hold no result any more: a weak reference to the result of a consumed call must be dead after a collection.  Console, HTML,
+    IPython (widgets live in a process-wide registry), null and composite displays; a successful run and one whose consumer
+    fails (the display then keeps exception records)."""
+    import contextlib
+    import io
+    import tempfile
+    import warnings
+    import weakref
+    from uberjob.progress import composite_progress, console_progress, html_progress, ipython_progress, null_progress
+    viol, done = [], 0
+    for kind in ("console", "html", "ipython", "null", "composite"):
+        for fail in (False, True):
+            if only is not None and [kind, fail] != list(only):
+                continue
+            refs = []
+
+            def make():
+                r = Res("a")
+                refs.append(weakref.ref(r))
+                return r
+
+            def consume(x):
+                if fail:
+                    raise ValueError("the consumer fails")
+                return 1
+
+            plan = uberjob.Plan()
+            b = plan.call(consume, plan.call(make))
+            with tempfile.TemporaryDirectory() as d, warnings.catch_warnings():
+                warnings.simplefilter("ignore")
+                prog = {"console": console_progress, "html": html_progress(d + "/p.html"), "ipython": ipython_progress, "null": null_progress,
+                        "composite": composite_progress(console_progress, html_progress(d + "/q.html"))}[kind]
+                buf = io.StringIO()
+                with contextlib.redirect_stdout(buf), contextlib.redirect_stderr(buf):
+                    try:
+                        uberjob.run(plan, output=b, progress=prog, max_workers=2)
+                    except uberjob.CallError:
+                        pass            # the exception (and with it the failed call's frame) is dropped here
+            del plan, b, prog
+            gc.collect()
+            done += 1
+            alive = [r() for r in refs if r() is not None]
+            if alive:
+                holders = who_refers(alive[0])
+                viol.append({"property": "C16", "what": f"{kind} progress, {'failing' if fail else 'successful'} run: after run "
+                             f"{'raised and the error was dropped' if fail else 'returned'} the consumed result is still alive; referred to by {str(holders)[:300]}",
+                             "kind": "after-run", "case": [kind, fail]})
+                break
+        if viol:
+            break
+    return viol, done
 
 
 def search(ctx, broken):
@@ -717,6 +776,9 @@ def search(ctx, broken):
 def replay(ctx, payload):
     w = payload.get("witness", payload)
     gc.collect()
+    if w.get("kind") == "after-run":
+        v, _ = after_run_cases(only=w["case"])
+        return v[0]["what"] if v else None
     r = run_case(w["case"], w["seed"])
     v, d, st = judge(w["case"], r, None)
     if not v and ctx.driver is not None and st.get("pending") and w.get("layer"):
